@@ -114,6 +114,9 @@ type rowBack struct {
 	wkt   string
 	empty bool
 	g     geom.Geometry
+	hdr   bool  // the geometry blob was decoded
+	hsrs  int32 // srs_id in the blob's header
+	hempt bool  // the header's empty flag
 }
 
 type tableBack struct {
@@ -122,6 +125,7 @@ type tableBack struct {
 	rtree    int
 	extent   string
 	geomCol  string // table_name column_name geometry_type_name srs_id
+	srsID    int    // srs_id of gpkg_geometry_columns (-1: no row)
 	contents string // data_type srs_id
 }
 
@@ -198,6 +202,7 @@ func readBack(path, table, gcol string) (*tableBack, error) {
 					continue
 				}
 				rb.g = sb.Geometry
+				rb.hdr, rb.hsrs, rb.hempt = true, sb.Header.SRSID(), sb.Header.IsGeometryEmpty()
 				rb.empty = cmp.IsEmptyGeo(sb.Geometry)
 				rb.wkt, _ = wkt.EncodeString(sb.Geometry)
 			} else {
@@ -223,7 +228,9 @@ func readBack(path, table, gcol string) (*tableBack, error) {
 	var gsrs int
 	if err := db.QueryRow(`SELECT table_name, column_name, geometry_type_name, srs_id FROM gpkg_geometry_columns WHERE table_name = ?`, table).Scan(&tn, &cn, &gt, &gsrs); err != nil {
 		tb.geomCol = "no gpkg_geometry_columns row"
+		tb.srsID = -1
 	} else {
+		tb.srsID = gsrs
 		tb.geomCol = fmt.Sprintf("%s %s %s %d", tn, cn, strings.ToUpper(gt), gsrs)
 	}
 	return tb, nil
@@ -252,6 +259,9 @@ func bboxOf(gs []geom.Geometry) string {
 
 func randGeom(rng *rand.Rand, gt gpkg.GeometryType, i int, emptyShare int) geom.Geometry {
 	x, y := float64(rng.Intn(2000))/4-100, float64(rng.Intn(2000))/4+300
+	if gt == gpkg.Geometry { // a table of mixed geometries
+		gt = []gpkg.GeometryType{gpkg.Point, gpkg.Linestring, gpkg.Polygon, gpkg.MultiPolygon, gpkg.MultiPoint, gpkg.MultiLinestring}[rng.Intn(6)]
+	}
 	if rng.Intn(100) < emptyShare {
 		switch gt {
 		case gpkg.MultiPoint:
@@ -267,9 +277,6 @@ func randGeom(rng *rand.Rand, gt gpkg.GeometryType, i int, emptyShare int) geom.
 		case gpkg.GeometryCollection:
 			return geom.Collection{}
 		}
-	}
-	if gt == gpkg.Geometry { // a table of mixed geometries
-		gt = []gpkg.GeometryType{gpkg.Point, gpkg.Linestring, gpkg.Polygon, gpkg.MultiPolygon, gpkg.MultiPoint, gpkg.MultiLinestring}[rng.Intn(6)]
 	}
 	switch gt {
 	case gpkg.Point:
@@ -379,6 +386,13 @@ func compareTable(t *tableSpec, want []rowBack, wantGeoms []geom.Geometry, got *
 		}
 		if !want[i].empty {
 			nonEmpty++
+		}
+		// the blob itself says which reference system it is in and whether it is empty
+		if got.rows[i].hdr && int(got.rows[i].hsrs) != got.srsID {
+			return fmt.Sprintf("row %d: the geometry's header says srs_id %d, the table is registered with srs_id %d", i, got.rows[i].hsrs, got.srsID)
+		}
+		if got.rows[i].hdr && got.rows[i].hempt != want[i].empty {
+			return fmt.Sprintf("row %d: the geometry's header says empty=%v, the geometry %s", i, got.rows[i].hempt, want[i].wkt)
 		}
 	}
 	if got.rtree != nonEmpty {
